@@ -4,7 +4,7 @@
 use std::collections::{BTreeMap, BTreeSet};
 use std::rc::Rc;
 
-use refmodel::rauth::{self, key, Ev, Key, Selection};
+use refmodel::rauth::{self, key, Ev, Key};
 use refmodel::revent::{self, Redacted, SignKey, SignResult, VerifyExpect};
 use refmodel::rj::{self, J};
 use refmodel::rsr2::{self, StateSet};
@@ -18,7 +18,7 @@ use crate::conv::{self, Pdu};
 use crate::gen::{self, View};
 use crate::node::{ev_json, state_json};
 use crate::real::{self, Outcome};
-use crate::sim::{clip, model_auth, selection_set, Kind, Sim};
+use crate::sim::{clip, selection_set, Kind, Sim};
 
 fn o(pairs: Vec<(&str, J)>) -> J {
     J::Obj(pairs.into_iter().map(|(k, v)| (k.to_string(), v)).collect())
